@@ -6,7 +6,7 @@ failure classes of mixed requests; callback areas."""
 from .. import cast, sym, lin
 from ..sym import C, fmt, linearize as L
 from ..lin import Lin
-from .regs import Regs, T, strip_cast, size_facts
+from .regs import Regs, T, strip_cast, size_facts, scan_rule, for_headers
 
 ADDR, N, BUF = ('v', 'addr'), ('v', 'n'), ('v', 'buf')
 
@@ -399,6 +399,17 @@ def rule_e(ck, R):
         for r, txt in ((-1, 'below'), (1, 'above')):
             if r not in res:
                 bad = 'no result %d' % r
+        # the other two classes, so that the three results partition the inputs exactly
+        for p in res.get(-1, []):
+            S = [x for c in p.cond_terms() for x in sym.subterms(c) if x[0] == 'cast' or (x[0] == 'i' and 'rds_size' in fmt(x))]
+            if not S or not eng.entails(eng.path_facts(p), A + L(S[0]) - L(ADDR)):
+                bad = bad or 'result -1 (below) is returned under {%s}, which does not imply A + S <= addr' % '; '.join(fmt(c) for c in p.cond_terms())
+        for p in res.get(1, []):
+            if not eng.entails(eng.path_facts(p), L(ADDR) + L(N) - A):
+                bad = bad or 'result 1 (above) is returned under {%s}, which does not imply addr + n <= A' % '; '.join(fmt(c) for c in p.cond_terms())
+        others = [p for p in ps if p.ret is None or p.ret[0] != 'c' or p.ret[1] not in (-1, 0, 1)]
+        if others:
+            bad = bad or 'returns %s' % fmt(others[0].ret)
         ck.verdict(bad is None, 'C02.e', 'reg_range_touches', R.where('reg_range_touches'),
                    '0 exactly for registers overlapping the range, -1 below, 1 above' if bad is None else bad)
     ps = R.paths('reg_taint_in_range', 'C02.e', eng)
@@ -417,6 +428,23 @@ def rule_e(ck, R):
                     bad = 'register touched although it does not overlap'
                 if rt and tuple(rt[-1].args[1:]) != (ADDR, N):
                     bad = 'touch test uses %s' % [fmt(a) for a in rt[-1].args]
+            # the three-way use of the result: above -> stop (table sorted), below -> next register, overlap -> mark
+            if rt:
+                r = rt[-1].result
+                above = eng.entails(p, Lin.const(1) - L(r))
+                below = eng.entails(p, L(r) + 1)
+                zero = eng.entails(p, L(r)) and eng.entails(p, -L(r))
+                idx = rt[-1].args[0]
+                if above and (tc or p.end != 'return'):
+                    bad = bad or 'a register above the range does not end the walk'
+                elif below and (tc or p.end != 'loopback'):
+                    bad = bad or 'a register below the range is not simply skipped (the walk %s)' % ('marks it' if tc else 'ends')
+                elif zero and (len(tc) != 1 or p.end != 'loopback'):
+                    bad = bad or 'an overlapped register is not marked, or the walk ends after it'
+                elif not (above or below or zero):
+                    bad = bad or 'the walk acts on a result that is not decided to be <0, 0 or >0: {%s}' % '; '.join(fmt(c) for c in p.cond_terms() if sym.contains(c, r))
+                if zero and tc and not sym.contains(idx, strip_cast(tc[0].args[1])):
+                    bad = bad or 'marks register %s, tested register %s' % (fmt(tc[0].args[1]), fmt(idx))
         if not touched and bad is None:
             bad = 'no register is ever marked'
         ck.verdict(bad is None, 'C02.e', 'reg_taint_in_range', R.where('reg_taint_in_range'),
@@ -436,6 +464,10 @@ def run(ck):
     R = Regs(ck)
     R.validate_pure = True
     rule_a(ck, R)
+    # the validation helpers look at the whole table (a scan that starts late / stops early lets a write through unchecked)
+    scan_rule(R, 'C02.b', 'ra_malformed_write', 'entries')
+    scan_rule(R, 'C02.a', 'ra_writeable', 'areas')
+    scan_rule(R, 'C02.e', 'reg_taint_in_range', 'entries')
     rule_b(ck, R)
     rule_c(ck, R)
     walker(ck, R, 'register_block_write_unsafe', 'C02.d', 'write')
